@@ -5,8 +5,8 @@
 //	key spec x envelope format x signer kind x target x user metadata x expiry duration x signing agent
 //
 // every element signed through the REAL signing API (notation.SignBlob, Signer.Sign,
-// notation.SignOCI) with a GenericSigner or a PluginSigner over an in-process scripted
-// signature-generator / envelope-generator plugin, the bytes fed into the REAL verification
+// notation.SignOCI) with a GenericSigner (from key material and from PEM files) or a PluginSigner
+// over an in-process scripted signature-generator / envelope-generator plugin, the bytes fed into the REAL verification
 // API (notation.VerifyBlob, verifier.Verify, notation.Verify) under a strict policy that trusts
 // the signer's root. The oracle recomputes the blob descriptor with the standard library,
 // decodes the reported payload field by field, re-verifies the bytes with lib/refsig and
